@@ -50,6 +50,8 @@ func checkC20(c *Ctx) {
 	c.checkBucketCacheGet("O4 cache-hit-equality")
 	c.checkBucketsEqual("O4 buckets-equal")
 	c.checkBucketsUsed("O4 buckets-used")
+	// bucket pairs are derived from a sorted COPY that stays private while it is read (shared with C03 O5)
+	c.checkSortedCopy("O3 sorted-copy")
 }
 
 // checkRecurrence (O5): the bounds follow the documented recurrence. Decided symbolically on SSA, not
